@@ -10,6 +10,10 @@ Decided (necessary structural clauses; the numeric behaviour is not decided):
       check_runtime_limits itself contains both comparisons
   R3  handler search / pending_exception in handle_error are reachable only for catchable
       errors; JsError::into_opaque refuses engine errors; writers of Vm.pending_exception audited
+  R4  the CompletionRecord produced by running or resuming an activation (Context::run,
+      GeneratorContext::resume) is never discarded: the record is returned, handed on by value, or its
+      Throw payload flows to the caller's return value / an error sink; and no caller turns "is a throw
+      completion" into a panic (an uncatchable limit error is the one Throw that always gets this far)
 """
 from facts import (call_blocks, cn, callee, cname, roots, op_local, bool_switch, bool_origin,
                    assigns_to_field, place_fields)
@@ -431,11 +435,129 @@ def r3(db, rep):
                f"there would be handed to script handlers)", loc=f.span)
 
 
+RECORD_PRODUCERS = ("Context::run", "GeneratorContext::resume")
+
+
+def record_fate(f, local):
+    """how the CompletionRecord in `local` leaves the function: set of 'returned', 'moved:<callee>', 'payload-returned',
+    'payload-moved:<callee>', 'inspected'"""
+    fate = set()
+    D = {local}           # locals holding the record by value
+    P = set()             # locals holding (something built from) the Throw payload
+    changed = True
+    while changed:
+        changed = False
+        for b in f.reachable():
+            for s in f.blocks[b]["s"]:
+                r = s["r"]
+                k = r.get("k")
+                ops = [r["o"]] if k in ("use", "cast") else r["ops"] if k == "agg" else []
+                for o in ops:
+                    if o[0] not in ("c", "m"):
+                        continue
+                    src = o[1]
+                    tgt = s["p"][0]
+                    if src[0] in D and len(src) == 1 and k == "use" and len(s["p"]) == 1:
+                        if tgt not in D:
+                            D.add(tgt); changed = True
+                    elif src[0] in D and len(src) > 1:
+                        if tgt not in P:
+                            P.add(tgt); changed = True
+                    elif src[0] in D and k == "agg":
+                        if tgt not in D:
+                            D.add(tgt); changed = True      # wrapped: ControlFlow::Break(record), Poll::Ready(record)
+                    elif src[0] in P:
+                        if tgt not in P:
+                            P.add(tgt); changed = True
+                if k == "discr" and r["p"][0] in D:
+                    fate.add("inspected")
+            t = f.blocks[b]["t"]
+            if t["t"] == "call":
+                c = cn(t)
+                for a in t["args"]:
+                    if a[0] != "m" or len(a[1]) != 1:
+                        continue
+                    if a[1][0] in D and not c.endswith("::drop"):
+                        fate.add("moved:" + c)
+                        # conversions keep the record/its error alive in the result
+                        if c.split("::")[-1] in ("consume", "into", "from", "branch", "from_residual", "map_err", "map") \
+                                and t.get("dest") and len(t["dest"]) == 1 and t["dest"][0] not in P:
+                            P.add(t["dest"][0]); changed = True
+                    if a[1][0] in P and not c.endswith("::drop"):
+                        fate.add("payload-moved:" + c)
+                        if t.get("dest") and len(t["dest"]) == 1 and t["dest"][0] not in P:
+                            P.add(t["dest"][0]); changed = True
+    if 0 in D:
+        fate.add("returned")
+    if 0 in P:
+        fate.add("payload-returned")
+    return fate, D
+
+
+def rust_panic_only(f, b, depth=0):
+    """block `b` inevitably ends in a Rust panic (core::panicking::*), following gotos"""
+    t = f.blocks[b]["t"]
+    if t["t"] == "call":
+        c = callee(t) or ""
+        if c.startswith(("core::panicking::", "std::rt::begin_panic", "core::panicking")):
+            return True
+        if "to" in t and depth < 6 and (c.startswith("core::fmt::") or "Arguments" in c):
+            return rust_panic_only(f, t["to"], depth + 1)
+        return False
+    if t["t"] == "goto" and depth < 6:
+        return rust_panic_only(f, t["to"] if "to" in t else t["tgt"], depth + 1)
+    return False
+
+
+def r4(db, rep):
+    rep.rule("R4", "the CompletionRecord of Context::run / GeneratorContext::resume is returned, handed on by value, or its "
+                   "Throw payload reaches the caller's return value; it is never dropped and never asserted not to be a throw")
+    n = 0
+    for f in db.fns.values():
+        if not f.id.startswith("boa_engine::") or "::tests" in f.id or not f.mentions("CompletionRecord"):
+            continue
+        sites = [(b, t) for b, t in f.calls() if cn(t) in RECORD_PRODUCERS]
+        base = cname(f.id)
+        for i, (b, t) in enumerate(sites):
+            if not t.get("dest") or len(t["dest"]) != 1:
+                continue
+            n += 1
+            fate, D = record_fate(f, t["dest"][0])
+            ok = bool(fate & {"returned", "payload-returned"}) or any(
+                x.startswith("moved:") or x.startswith("payload-moved:") for x in fate)
+            rep.ob("R4", f"{base}:{cn(t).split('::')[-1]}:{i}:record-consumed", ok,
+                   f"{base} discards the completion record of {cn(t)} ({f.loc(b)}): when the resumed/run activation ends "
+                   f"with an uncatchable error (runtime limit), the error vanishes — the job or call succeeds and the host "
+                   f"is never told", loc=f.loc(b))
+            # the record is never asserted to be non-throwing
+            for bb, tt in f.calls():
+                if cn(tt) != "CompletionRecord::is_throw_completion" or not tt["args"] or "to" not in tt:
+                    continue
+                l = op_local(tt["args"][0])
+                if l is None or not any(r[0] == "call" and r[1] == b for r in roots(f, l)):
+                    continue
+                bad = False
+                for sb in f.reach_from([tt["to"]]):
+                    x = bool_switch(f, sb)
+                    if not x:
+                        continue
+                    org = bool_origin(f, x[0])[1]
+                    if org[0] == "call" and org[1] == bb:
+                        bad = any(rust_panic_only(f, arm) for arm in (x[1], x[2]))
+                        break
+                rep.ob("R4", f"{base}:{cn(t).split('::')[-1]}:{i}:throw-not-asserted-absent", not bad,
+                       f"{base} asserts that the record of {cn(t)} is not a throw completion ({f.loc(bb)}); a runtime-limit "
+                       f"error raised by the resumed body is exactly such a record, so the script aborts the process",
+                       loc=f.loc(bb))
+    rep.floor("R4", "Context::run / GeneratorContext::resume call sites", n, 11)
+
+
 def run(db, rep, tier):
     r1(db, rep)
     r1b(db, rep)
     r2(db, rep)
     r3(db, rep)
+    r4(db, rep)
     rep.assumptions += [
         "bytecode emitted between two Rust program points is straight-line with respect to the loop head "
         "(R1 reasons over the compiler's Rust CFG, not over emitted jumps)",
